@@ -257,9 +257,12 @@ func (op FXP) Simulate(vm *VM, instr string) error {
 	regDest := get_id(instr[:regBits])
 	regSrc := get_id(instr[regBits : regBits*2])
 
-	switch *op.pipeline {
+	// The pipeline phase is part of the state of the simulated processor, not of the opcode
+	phaseKey := op.fpName + "_pipeline"
+	phase, _ := vm.Extra_states[phaseKey].(uint8)
+	switch phase {
 	case FXPPUT:
-		*op.pipeline = FXPGET
+		vm.Extra_states[phaseKey] = FXPGET
 	case FXPGET:
 		var dest int64
 		var src int64
@@ -299,7 +302,7 @@ func (op FXP) Simulate(vm *VM, instr string) error {
 			return errors.New("invalid register size, must be <= 64")
 		}
 		vm.Pc = vm.Pc + 1
-		*op.pipeline = LQPUT
+		vm.Extra_states[phaseKey] = LQPUT
 	}
 	return nil
 }
